@@ -19,7 +19,7 @@ template<multi::dimensionality_type D> using CS = multi::const_subarray<double, 
 template<multi::dimensionality_type D> using AR = multi::array<double, D>;
 template<multi::dimensionality_type D> using AI = multi::array<int, D>;
 ''', cut=[r'_ZSt.*terminate', r'_ZNSt7__cxx11', r'_ZSt9to_string', r'_ZSt20__throw_length_error', r'_ZSt17__throw_bad_alloc', r'_ZSt28__throw_bad_array_new_length'],
-      noinline=[r'^_ZSt20uninitialized_copy_n', r'^_ZSt6copy_n', r'^_ZSt20uninitialized_fill_n', r'subarray<double, \dl.*::operator=<double, double\*', r'^_ZNSt7__cxx11'])
+      noinline=[r'^_ZSt20uninitialized_copy_n', r'^_ZSt6copy_n', r'^_ZSt20uninitialized_fill_n', r'^_ZSt6fill_n', r'subarray<double, \dl.*::operator=<double, double\*', r'^_ZNSt7__cxx11'])
 
 def ARR(D, T='double'): return r're:boost::multi::array<%s,%d(,std::allocator<%s>)?>' % (T, D, T)
 def EIc(D): return 're:boost::multi::elements_iterator_t<constdouble\\*,boost::multi::layout_t<%d>>' % D
@@ -161,7 +161,11 @@ for D in (2, 3):
     same_ext = ' && '.join('%s == %s && %s == %s' % (oe_first[k], '0', oe_last[k], xs[k]) for k in range(D))
     ASG = Stub(r'boost::multi::subarray<double, %dl, double\*, boost::multi::layout_t<%dl, long> >& boost::multi::subarray<double, %dl, double\*, boost::multi::layout_t<%dl, long> >::operator=<double, double\*, boost::multi::layout_t<%dl, long> >\(boost::multi::const_subarray<double, %dl, double\*, boost::multi::layout_t<%dl, long> >&&\) &&' % ((D,)*7),
                record=[('g_L', 0, MSUB(D)), ('g_R', 1, SUB(D))], count='g_as_calls', ret='g_as_ret', decl='int g_seq; int g_as_seq; int g_fill_seq;', ghosts=['g_seq', 'g_as_seq', 'g_fill_seq'], body='g_as_seq = ++g_seq;')
-    FILL = Stub(r'double\* std::uninitialized_fill_n<double\*, unsigned long, double>\(.*', record=[('g_fl_dst', 0, None, 'ptr'), ('g_fl_n', 1, None), ('g_fl_v', 2, None, 'deref')], count='g_fl_calls', ret='g_fl_ret', body='g_fill_seq = ++g_seq;')
+    # std::uninitialized_fill_n and (for a trivially constructible element) std::fill_n are the same ISO operation on raw storage: fill [dst, dst+n) with v
+    FILL = Stub(r'double\* std::uninitialized_fill_n<double\*, unsigned long, double>\(.*', record=[('g_fl_dst', 0, None, 'ptr'), ('g_fl_n', 1, None), ('g_fl_v', 2, None, 'deref')], count='g_flu_calls', ret='g_fl_ret', body='g_fill_seq = ++g_seq;', optional=True,
+                absent='double *g_fl_dst; I64 g_fl_n; double g_fl_v;')
+    FILL2 = Stub(r'double\* std::fill_n<double\*, unsigned long, double>\(.*', record=[('g_fl_dst', 0, None, 'ptr'), ('g_fl_n', 1, None), ('g_fl_v', 2, None, 'deref')], count='g_flf_calls', ret='g_fl2_ret', body='g_fill_seq = ++g_seq;', optional=True,
+                 absent='double *g_fl_dst; I64 g_fl_n; double g_fl_v;')
     RAWD = Stub(r'double\* std::uninitialized_copy_n<double( const)?\*, (unsigned )?long, double\*>\(.*', count='g_rawu_calls', ret='g_raw_ret', optional=True,
                 record=[('g_raw_first', 0, None, 'ptr'), ('g_raw_n', 1, None), ('g_raw_dst', 2, None, 'ptr')], absent='double *g_raw_first; I64 g_raw_n; double *g_raw_dst;')
     RAWC = Stub(r'double\* std::copy_n<double( const)?\*, (unsigned )?long, double\*>\(.*', count='g_rawc_calls', ret='g_rawc_ret', optional=True,
@@ -170,7 +174,7 @@ for D in (2, 3):
         nm = 'O%d_reextent%s%s' % (D, '_fill' if fill else '', '_b' if based else '')
         ens = canonical_ens('self', D, xs, ['0']*D, lambda k: '%s == 0' % prod(xs[k:]), guard='EXC == 0 && !(%s)' % same_ext, what='the array') + [
             ('same extents: nothing happens (same storage, same layout, no allocation, no element traffic)',
-             'IMPLIES(EXC == 0 && %s, self->base_ == OLD(self->base_) && g_news == 0 && g_deletes == 0 && g_as_calls == 0 && (g_rawu_calls + g_rawc_calls) == 0%s)' % (same_ext, ' && g_fl_calls == 0' if fill else '')),
+             'IMPLIES(EXC == 0 && %s, self->base_ == OLD(self->base_) && g_news == 0 && g_deletes == 0 && g_as_calls == 0 && (g_rawu_calls + g_rawc_calls) == 0%s)' % (same_ext, ' && (g_flu_calls + g_flf_calls) == 0' if fill else '')),
             ('different extents: storage for exactly num_elements(x) elements is obtained once and becomes the base; the old storage is released exactly once',
              'IMPLIES(EXC == 0 && !(%s), %s && (%s == 0 ? g_deletes == 0 : (g_deletes == 1 && g_deleted == (void*)OLD(self->base_))))' % (same_ext, storage('self', Nx), Na)),
             ('[delegation] different extents with a common part: it is transferred by exactly one view assignment', 'IMPLIES(EXC == 0 && !(%s) && %s, g_as_calls == 1 && (g_rawu_calls + g_rawc_calls) == 0)' % (same_ext, nonempty)),
@@ -187,10 +191,10 @@ for D in (2, 3):
         if fill:
             in_new_not_old = ' && '.join('0 <= %s && %s < %s' % (ii[k], ii[k], xs[k]) for k in range(D)) + ' && !(%s)' % ' && '.join('%s <= %s && %s < %s' % (oe_first[k], ii[k], ii[k], oe_last[k]) for k in range(D))
             ens += [('with a fill value: whenever some index tuple of the new extents lies outside the old extents, the whole new storage is filled with exactly that value, before the common part is copied over it',
-                     'IMPLIES(EXC == 0 && !(%s) && %s, g_fl_calls == 1 && g_fl_dst == self->base_ && g_fl_n == %s && g_fl_v == fv && (g_as_calls == 0 || g_fill_seq < g_as_seq))' % (same_ext, in_new_not_old, Nx))]
+                     'IMPLIES(EXC == 0 && !(%s) && %s, (g_flu_calls + g_flf_calls) == 1 && g_fl_dst == self->base_ && g_fl_n == %s && g_fl_v == fv && (g_as_calls == 0 || g_fill_seq < g_as_seq))' % (same_ext, in_new_not_old, Nx))]
         Check(nm, ['C06', 'C19'] if based else ['C06'], 'own', fn='w_' + nm, params=['self'] + xs + (['fv'] if fill else []),
               wrapper=('void', 'AR<%d>* self, %s%s' % (D, ', '.join('long %s' % x for x in xs), ', double fv' if fill else ''), 'self->reextent({%s}%s);' % (', '.join(xs), ', fv' if fill else '')),
-              cxx={'self': ARR(D)}, ghosts=ghosts_fn(D) + [(I64, x) for x in ii], stubs=[NEW, DEL, ASG, RAWD, RAWC] + ([FILL] if fill else []), mode='narrow:5',
+              cxx={'self': ARR(D)}, ghosts=ghosts_fn(D) + [(I64, x) for x in ii], stubs=[NEW, DEL, ASG, RAWD, RAWC] + ([FILL, FILL2] if fill else []), mode='narrow:5',
               setup='g_seq = 0; g_as_seq = 0; g_fill_seq = 0;',
               requires=[' && '.join('0 <= %s && %s < 16 && -16 < %s && %s < 16 && 0 <= %s && %s < 16 && -32 < %s && %s < 32' % (n, n, f, f, x, x, i_, i_) for n, f, x, i_ in zip(na, fa, xs, ii)),
                         is_canonical('self', D, na, fa), '%s < 16 && %s < 16' % (Na, Nx), (' || '.join('%s != 0' % f for f in fa)) if based else (' && '.join('%s == 0' % f for f in fa)), 'g_block != 0 && self->base_ != 0 && PTR_SANE(self->base_) && PTR_SANE(g_block)'] + (['fv == fv'] if fill else []),
